@@ -200,6 +200,8 @@ type Cell struct {
 	log     []UpReq
 	deadFd  int
 	deadPrt int
+	barMu   sync.Mutex
+	barLast time.Time
 }
 
 type Stub struct {
@@ -513,6 +515,8 @@ func (s *Stub) serveNsqd(w http.ResponseWriter, r *http.Request, cl *Cluster, f 
 	case "/ping":
 		w.Write([]byte("OK"))
 	case "/stats":
+		// the nsqd of one fan-out answer at the same instant: whatever nsqadmin does with the answers, it does concurrently
+		s.cell.statsBarrier()
 		selT, selC := q.Get("topic"), q.Get("channel")
 		inclClients := q.Get("include_clients") != "false" && q.Get("include_clients") != "0"
 		if f == "nulltopic" {
@@ -621,4 +625,22 @@ func readTagged(path, tag string, each func(raw []byte) error) error {
 		}
 	}
 	return nil
+}
+
+// statsBarrier: a /stats request waits until no other /stats request has reached this cell's stubs for 2 ms (at most
+// 20 ms): the requests of one fan-out are then answered together.
+func (c *Cell) statsBarrier() {
+	c.barMu.Lock()
+	c.barLast = time.Now()
+	c.barMu.Unlock()
+	deadline := time.Now().Add(20 * time.Millisecond)
+	for time.Now().Before(deadline) {
+		c.barMu.Lock()
+		quiet := time.Since(c.barLast) >= 2*time.Millisecond
+		c.barMu.Unlock()
+		if quiet {
+			return
+		}
+		time.Sleep(200 * time.Microsecond)
+	}
 }
